@@ -810,4 +810,18 @@ theorem days_injective_on_valid_dates (y m d y' m' d' : Nat) (hm : 1 ≤ m ∧ m
 /-- not vacuous: a leap day is a valid date, and the day after 2024-02-29 is not 2024-02-30 -/
 example : (1 ≤ 29 ∧ 29 ≤ daysIn 2 2024) ∧ ¬ (30 ≤ daysIn 2 2024) ∧ civilFromDays (daysFromCivil 2024 2 29 + 1) = (2024, 3, 1) := by decide
 
+/-- the numeric half of "a rendered instant parses back to itself": the fields `renderRFC3339` prints for an instant (date of the day,
+    second of the day, nanoseconds, zone Z) are combined by the parser's arithmetic into that instant again -/
+theorem rendered_fields_denote_the_instant (ns : Int) (hy : 0 ≤ (civilFromDays (ns / 1000000000 / 86400)).1) :
+    instantNs ((civilFromDays (ns / 1000000000 / 86400)).1.toNat, (civilFromDays (ns / 1000000000 / 86400)).2.1,
+        (civilFromDays (ns / 1000000000 / 86400)).2.2)
+      (ns / 1000000000 % 86400).toNat (ns % 1000000000).toNat 0 = ns := by
+  unfold instantNs
+  simp only
+  rw [days_of_rendered_date _ hy]
+  omega
+
+/-- not vacuous: an instant before the epoch with a fraction -/
+example : 0 ≤ (civilFromDays ((-1234567890123456789 : Int) / 1000000000 / 86400)).1 := by decide
+
 end Gsp.Props.C04
